@@ -129,7 +129,10 @@ def gen_ded_system(rng, abkinds=None, scalar_only=True, realisable=True):
     n = rng.randint(0, 3)
     util = rng.choice([0.3, 0.5, 0.7, 0.85, 0.95, 1.1])
     ts = gen_taskset(rng, n + 1, util, abkinds or AB_ANALYSIS, scalar_only, realisable)
-    return ts[0], ts[1:]
+    others = ts[1:]
+    if rng.random() < 0.12:          # a task that never releases a job (arrival::Never), anywhere among the other tasks
+        others.insert(rng.randint(0, len(others)), ["rbf", ["never"], ["scalar", rng.randint(1, 9)]])
+    return ts[0], others
 
 def q_fp(rng, which=None, abkinds=None, realisable=True):
     tua, hp = gen_ded_system(rng, abkinds, True, realisable)
